@@ -146,6 +146,12 @@ class RandInfoBuilder(ModelVisitor,RandIF):
                         field_l = [fi for fi in rs.fields() if fi in fs]
                         if len(field_l) > 0:
                             rs.rand_order_l.append(field_l)
+                    # The fields that no ordering constraint mentions
+                    # are randomized after the ordered ones
+                    rest_l = [fi for fi in rs.rand_fields() 
+                              if not any(fi in g for g in rs.rand_order_l)]
+                    if len(rest_l) > 0:
+                        rs.rand_order_l.append(rest_l)
                 
         # It's important to maintain a fixed order for the
         # unconstrained fields, since this affects their
